@@ -377,3 +377,9 @@ def run(cx, chk):
     check_checks(cx, chk)
     check_char_and_extern(cx, chk)
     check_ctx(cx, chk)
+    # "the rule consumes exactly the number of bytes the extern function reports": advance_safe moves the offset and the remaining
+    # input together by that n (the cursor invariant, shared with C04)
+    from . import c04
+    c04.check_cursor(cx, chk, cx.runtime, "runtime")
+    if "C04.cursor" in chk.rules:
+        chk.rules["C14.extern.cursor"] = chk.rules.pop("C04.cursor")
